@@ -179,6 +179,8 @@ static void live(bool thorough)
                         for (int b = 0; b < 64 && b < (int) pt::mask_size(wm); ++b) if (pt::test(wm, b)) pika_mask |= 1ul << b;
                         SEQX_CHECK(std::popcount(os_mask) == 1, "not-one-pu", "live: worker %zu of pool %zu runs with OS affinity 0x%lx", w, pi, os_mask);
                         SEQX_CHECK(os_mask == pika_mask, "reported-pu-differs", "live: worker %zu of pool %zu: OS affinity 0x%lx, pika reports 0x%lx", w, pi, os_mask, pika_mask);
+                        std::size_t pu_num = rp.get_pu_num(globals[w]);
+                        SEQX_CHECK(pu_num < 64 && (1ul << pu_num) == os_mask, "reported-pu-differs", "live: worker %zu of pool %zu is bound to PU mask 0x%lx, the resource partitioner reports PU number %zu for it", w, pi, os_mask, pu_num);
                         for (auto prev : seen_masks) SEQX_CHECK((prev & os_mask) == 0, "shared-pu", "live: two workers share PU mask 0x%lx", os_mask);
                         seen_masks.push_back(os_mask);
                     }
